@@ -347,5 +347,7 @@ def run(tier="quick", root="/repo", evidence_dir=None, quiet=False):
         rep.ok("R3.chunker-shape", "ngrid._chunked_iterator", g.loc(), "islice over one shared iterator, stops at the first empty chunk")
     else:
         rep.note("ngrid._chunked_iterator has an unrecognised shape (not a violation by itself)")
+    from gridlint import product_quad
+    rep.attempt(product_quad.rule_product_quadrature, rep, repo)
     rep.extra["source_digest"] = repo.digest(["ngrid"])
     return rep.finish(evidence_dir=evidence_dir, quiet=quiet)
